@@ -432,12 +432,43 @@ func pseudoKind(s string) int {
 //@   loop 1 invariant -1 <= rangeindex && rangeindex < len(mh.Fields)
 //@   loop 1 invariant forall k int :: 0 <= k && k <= rangeindex ==> isPseudoName(mh.Fields[k].Name)
 
+// pseudoID numbers the six defined pseudo-header field names (0: anything else). Two names with
+// non-zero ids are equal strings exactly when their ids are equal; the duplicate check of
+// checkPseudos is followed through the loops on the ids (quantifier-free comparisons with constants)
+// and turned back into string (in)equality in the postconditions.
+//
+//@ pure
+func pseudoID(s string) int {
+	if s == ":method" {
+		return 1
+	}
+	if s == ":path" {
+		return 2
+	}
+	if s == ":scheme" {
+		return 3
+	}
+	if s == ":authority" {
+		return 4
+	}
+	if s == ":protocol" {
+		return 5
+	}
+	if s == ":status" {
+		return 6
+	}
+	return 0
+}
+
 // checkPseudos accepts exactly the frames whose pseudo-header fields (the first np fields, np = length
 // of the prefix of ':' names of mh.Fields, a ghost value taken from PseudoFields: first clause) are
 // all defined ones, pairwise distinct, and not a mix of request and
 // response fields: err == nil implies the three conditions (the direction C07 needs); a non-nil error is
-// one of the three error kinds. The converse (each error kind implies its condition fails) is
-// existential and was not decided reliably; it is not stated.
+// one of the three error kinds, and each kind is returned only when its condition is violated
+// (pseudoHeaderError: some pseudo field is undefined; duplicatePseudoHeaderError: two of the np names
+// are the same defined name (equal non-zero pseudoID, hence equal strings); errMixPseudoHeaderTypes, i.e. the remaining error: a request and a response
+// pseudo field both occur). The loop invariants follow the duplicate check on pseudoID (every earlier
+// field has been compared with the current one: loop 2; all pairs up to the current field: loop 1).
 //
 //@ func (*MetaHeadersFrame).checkPseudos(mh) (err)
 //@   requires mh != nil
@@ -447,15 +478,21 @@ func pseudoKind(s string) int {
 //@   ensures  err == nil ==> (forall a int, b int :: 0 <= a && a < b && b < ghost(np) ==> mh.Fields[a].Name != mh.Fields[b].Name)
 //@   ensures  err == nil ==> !((exists k int :: 0 <= k && k < ghost(np) && pseudoKind(mh.Fields[k].Name) == 1) && (exists k int :: 0 <= k && k < ghost(np) && pseudoKind(mh.Fields[k].Name) == 2))
 //@   ensures  err != nil ==> hastype(err, pseudoHeaderError) || hastype(err, duplicatePseudoHeaderError) || err == errMixPseudoHeaderTypes
+//@   ensures  hastype(err, pseudoHeaderError) ==> (exists k int :: 0 <= k && k < ghost(np) && pseudoKind(mh.Fields[k].Name) == 0)
+//@   ensures  hastype(err, duplicatePseudoHeaderError) ==> (exists a int, b int :: 0 <= a && a < b && b < ghost(np) && pseudoID(mh.Fields[a].Name) != 0 && pseudoID(mh.Fields[a].Name) == pseudoID(mh.Fields[b].Name))
+//@   ensures  err != nil && !hastype(err, pseudoHeaderError) && !hastype(err, duplicatePseudoHeaderError) ==> (exists k int :: 0 <= k && k < ghost(np) && pseudoKind(mh.Fields[k].Name) == 1) && (exists k int :: 0 <= k && k < ghost(np) && pseudoKind(mh.Fields[k].Name) == 2)
 //@   loop 1 invariant ghost(np) == len(pf) && samebase(pf, mh.Fields) && startoff(pf) == startoff(mh.Fields) && len(pf) <= len(mh.Fields)
 //@   loop 2 invariant ghost(np) == len(pf)
 //@   loop 1 invariant -1 <= rangeindex && rangeindex < len(pf)
-//@   loop 1 invariant forall k int :: 0 <= k && k <= rangeindex ==> pseudoKind(pf[k].Name) != 0
-//@   loop 1 invariant forall a int, b int :: 0 <= a && a < b && b <= rangeindex ==> pf[a].Name != pf[b].Name
-//@   loop 1 invariant isRequest <==> (exists k int :: 0 <= k && k <= rangeindex && pseudoKind(pf[k].Name) == 1)
-//@   loop 1 invariant isResponse <==> (exists k int :: 0 <= k && k <= rangeindex && pseudoKind(pf[k].Name) == 2)
+//@   loop 1 invariant forall k int :: 0 <= k && k <= rangeindex ==> pseudoID(pf[k].Name) != 0
+//@   loop 1 invariant forall a int, b int :: 0 <= a && a < b && b <= rangeindex ==> pseudoID(pf[a].Name) != pseudoID(pf[b].Name)
+//@   loop 1 invariant !isRequest ==> (forall k int :: 0 <= k && k <= rangeindex ==> pseudoKind(pf[k].Name) != 1)
+//@   loop 1 invariant !isResponse ==> (forall k int :: 0 <= k && k <= rangeindex ==> pseudoKind(pf[k].Name) != 2)
+//@   loop 1 invariant isRequest ==> (exists k int :: 0 <= k && k <= rangeindex && pseudoKind(pf[k].Name) == 1)
+//@   loop 1 invariant isResponse ==> (exists k int :: 0 <= k && k <= rangeindex && pseudoKind(pf[k].Name) == 2)
 //@   loop 2 invariant -1 <= rangeindex && rangeindex < i
-//@   loop 2 invariant forall a int :: 0 <= a && a <= rangeindex ==> pf[a].Name != hf.Name
+//@   loop 2 invariant pseudoID(hf.Name) != 0
+//@   loop 2 invariant forall a int :: 0 <= a && a <= rangeindex ==> pseudoID(pf[a].Name) != pseudoID(hf.Name)
 
 // ---------------------------------------------------------------------------
 // C07: the emit function of readMetaFrame (called by the HPACK decoder once per decoded field).
@@ -1144,8 +1181,12 @@ func lemmaRoundTripPushPromise(f *Framer, p PushPromiseParam, ce func(string), k
 }
 
 // SETTINGS: header (stream 0, no flags) and one 6-byte entry per argument, in order.
-// NOT DISCHARGED: the loop obligations inv.1.preserve.3, loopframe.1 and post.3 of this contract time
-// out (120 s); the unit and the two lemmas that use the contract are not registered.
+// The two append primitives are executed by their bodies inside the loop (usebody: the bytes of an
+// entry are then explicit stores at offsets len, len+1, .. of the loop-head buffer instead of two
+// chained quantified frame clauses), and the loop frame needs the invariant relative to the loop
+// entry (same backing array as at loop entry, or an array allocated by the loop: loopfresh), because
+// startWrite may already have reallocated f.wbuf before the loop. The two quantified obligations
+// (inv.1.preserve.3, post.3) need 10-40 s (cvc5; z3 does not decide them): thorough tier.
 //
 //@ func (*Framer).WriteSettings(f, settings) (err)
 //@   requires f != nil && f.w != nil
@@ -1157,6 +1198,9 @@ func lemmaRoundTripPushPromise(f *Framer, p PushPromiseParam, ce func(string), k
 //@   loop 1 invariant f.wbuf[0] == 0 && f.wbuf[1] == 0 && f.wbuf[2] == 0 && f.wbuf[3] == byte(FrameSettings) && f.wbuf[4] == 0 && f.wbuf[5] == 0 && f.wbuf[6] == 0 && f.wbuf[7] == 0 && f.wbuf[8] == 0
 //@   loop 1 invariant forall k int :: 0 <= k && k <= rangeindex ==> f.wbuf[9+6*k] == byte(settings[k].ID>>8) && f.wbuf[9+6*k+1] == byte(settings[k].ID) && f.wbuf[9+6*k+2] == byte(settings[k].Val>>24) && f.wbuf[9+6*k+3] == byte(settings[k].Val>>16) && f.wbuf[9+6*k+4] == byte(settings[k].Val>>8) && f.wbuf[9+6*k+5] == byte(settings[k].Val)
 //@   loop 1 invariant (samebase(f.wbuf, old(f.wbuf)) && startoff(f.wbuf) == old(startoff(f.wbuf))) || fresh(f.wbuf)
+//@   loop 1 invariant (samebase(f.wbuf, atloop(f.wbuf)) && startoff(f.wbuf) == atloop(startoff(f.wbuf))) || loopfresh(f.wbuf)
+//@   usebody (*Framer).writeUint16
+//@   usebody (*Framer).writeUint32
 //@   loop 1 modifies f.wbuf, elems(f.wbuf), spare(f.wbuf)
 //@   modifies f.wbuf, elems(f.wbuf), spare(f.wbuf), f.debugFramer, f.debugFramerBuf
 //@   allocates
